@@ -44,7 +44,10 @@ REQUIRED_MONITORS = ['filter', 'filter_errors', 'filter_duplicates',
 
 TRS_POOL = ['154n97w14', '154n97w15', '155n97w14', '154n96w01', '1s2e03',
             'XXXzXXXzXX', '___z___z__', '154nXXXz14', 'XXXz97w14',
-            '154n97wXX', '154n97w__', '___z97w14', '154n___z14']
+            '154n97wXX', '154n97w__', '___z97w14', '154n___z14',
+            # one component an error, another undefined
+            'XXXz97w__', '___z___zXX', '___zXXXz14', 'XXXz___z__',
+            '154nXXXz__', '___z97wXX']
 DESCS = ['NE/4', 'Northeast Quarter', 'Lots 1 - 3, S/2NE/4',
          'Lot 3, S/2NE/4, Lots 1, 2', 'W/2', 'foo']
 ATTRS = ['twprge', 'twp', 'rge', 'sec', 'trs', 'twp_num', 'rge_ew', 'sec_num']
@@ -228,14 +231,42 @@ PREDICATES = {
 }
 
 
+def make_predicate(name):
+    """Pure predicates from the table; 'every-other' and 'first-of-trs' are
+    STATEFUL (their answer depends on how often / on what they were called
+    before), so a filter that consults the predicate more than once per
+    element is exposed. The model calls a fresh instance once per element."""
+    if name == 'every-other':
+        state = {'n': 0}
+
+        def every_other(t):
+            state['n'] += 1
+            return state['n'] % 2 == 1
+        return every_other
+    if name == 'first-of-trs':
+        seen = set()
+
+        def first_of_trs(t):
+            if t.trs in seen:
+                return False
+            seen.add(t.trs)
+            return True
+        return first_of_trs
+    return PREDICATES[name]
+
+
+PREDICATE_NAMES = sorted(PREDICATES) + ['every-other', 'first-of-trs']
+
+
 def check_filter(case, els, lst, ctx, pytrs):
     op, drop = case['op'], case['drop']
     kind = case['kind']
     before = list(lst)
     if op == 'filter':
         ctx.hit('filter')
-        res = lst.filter(PREDICATES[case['pred']], drop=drop)
-        model = [i for i, e in enumerate(els) if PREDICATES[case['pred']](e)]
+        res = lst.filter(make_predicate(case['pred']), drop=drop)
+        mp = make_predicate(case['pred'])
+        model = [i for i, e in enumerate(els) if mp(e)]
     elif op == 'filter_errors':
         ctx.hit('filter_errors')
         kw = case['kw']
@@ -531,7 +562,7 @@ def gen_case(rng, pytrs):
     _, spec = make_elements(rng, pytrs, kind, rng.randint(0, 10))
     case = {'kind': kind, 'spec': spec, 'drop': rng.random() < 0.5}
     if r < 0.45:
-        case.update(op='filter', pred=rng.choice(sorted(PREDICATES)))
+        case.update(op='filter', pred=rng.choice(PREDICATE_NAMES))
     elif r < 0.6:
         case.update(op='filter_errors',
                     kw={'twp': rng.random() < 0.7, 'rge': rng.random() < 0.7,
